@@ -207,7 +207,13 @@ class Message(BaseMessage):
                      maildir_flags: MaildirFlags) -> Self:
         flag_set = maildir_flags.from_maildir(maildir_msg.get_flags())
         recent = maildir_msg.get_subdir() == 'new'
-        msg_dt = datetime.fromtimestamp(maildir_msg.get_date())
+        try:
+            msg_dt = datetime.fromtimestamp(maildir_msg.get_date())
+        except (ValueError, OverflowError, OSError):
+            # a file time outside the representable years (an INTERNALDATE
+            # at the edge of the range, seen from another time zone)
+            msg_dt = datetime.max if maildir_msg.get_date() > 0 \
+                else datetime.min
         return cls(uid, msg_dt, flag_set,
                    email_id=email_id, thread_id=thread_id,
                    recent=recent, maildir=maildir, key=key)
